@@ -285,6 +285,15 @@ def Ite(c, a, b):
         return Ite(Or(c, b.args[0]), a, b.args[2])
     if a.sort == 'F' and a.op == 'i2f' and b.op == 'i2f':
         return I2F(Ite(c, a.args[0], b.args[0]))
+    if a.sort == 'F' and a.op == b.op and a.val == b.val and len(a.args) == len(b.args) and a.args and a.op not in ('ite',):
+        # anti-unification: ite(c, f(x, y), f(x', y)) = f(ite(c, x, x'), y); merges the branches of
+        # code such as `if scopeUnchanged { return roundup(a*e) }; return roundup(b*e)`
+        diff = [i for i, (p, q) in enumerate(zip(a.args, b.args)) if p is not q]
+        if len(diff) == 1 and a.args[diff[0]].sort == b.args[diff[0]].sort:
+            i = diff[0]
+            na = list(a.args)
+            na[i] = Ite(c, a.args[i], b.args[i])
+            return mk(a.op, tuple(na), a.sort, a.val)
     return mk('ite', (c, a, b), a.sort)
 
 
@@ -800,7 +809,8 @@ def table(name, key):
 
 
 def stage(name, t):
-    return mk('stage', (t,), 'F', name)
+    # the name is not part of the term: equal staged values are the same node
+    return mk('stage', (t,), 'F', None)
 
 
 # ---------------------------------------------------------------- printing
